@@ -488,7 +488,7 @@ func C10triples(p *load.Program, run *report.Run) {
 		run.Undecided("triple-validity", "gmw.Network.tripleBatch", "", "function not found")
 		return
 	}
-	for _, n := range []int{2, 3, 4} {
+	for _, n := range partyCounts() {
 		key := fmt.Sprintf("gmw.Network.tripleBatch/parties=%d", n)
 		run.Count("party-counts", 1)
 		parties := make([]*tripleParty, n)
